@@ -220,6 +220,11 @@ func c05Run(waf coraza.WAF, t *c05Tx, closeIt bool) (*c05Outcome, types.Transact
 		call("b", it, err)
 		if rd, err := tx.RequestBodyReader(); err == nil {
 			if t.KeepReader {
+				// a connector typically has consumed part of the body through this reader before the transaction ends
+				if len(t.Body)%2 == 1 {
+					one := make([]byte, 1+len(t.Body)/3)
+					rd.Read(one)
+				}
 				keep = rd
 			} else {
 				b, _ := io.ReadAll(rd)
@@ -468,7 +473,7 @@ func c05Judge(w *fw.W, c *c05Case) {
 func init() {
 	fw.Register(&fw.Prop{
 		ID: "C05", Level: "exploration",
-		Rule: "on one WAF whose rules are all steerable from the request (captures, setvar/setenv, ctl changes of ruleEngine/auditEngine/auditLogParts/body access/limits/processor/force*, ruleRemoveById/range/ByTag/TargetById, pending skip, skipAfter to a missing marker, the three allow scopes, deny in phases 1-4, disk-spilled and over-limit bodies, JSON bodies incl. malformed), 1-3 predecessor transactions (each focused on one feature plus random others; some abandoned after k calls, without ProcessLogging, closed twice, or keeping a body reader) are followed by a probe transaction that dumps every collection in phases 1, 2 and 5; the probe's full outcome (per-call results, fired rules with match data, interruption, dumps, body reader contents, audit record) is compared with the same probe on a brand-new WAF. The pair runs on a locked OS thread with GC off so that the pool hands the predecessor's object to the probe. Non-trivial: object identity confirmed that the probe received the predecessor's recycled transaction; distinct by case hash.",
+		Rule:        "on one WAF whose rules are all steerable from the request (captures, setvar/setenv, ctl changes of ruleEngine/auditEngine/auditLogParts/body access/limits/processor/force*, ruleRemoveById/range/ByTag/TargetById, pending skip, skipAfter to a missing marker, the three allow scopes, deny in phases 1-4, disk-spilled and over-limit bodies, JSON bodies incl. malformed), 1-3 predecessor transactions (each focused on one feature plus random others; some abandoned after k calls, without ProcessLogging, closed twice, or keeping a body reader) are followed by a probe transaction that dumps every collection in phases 1, 2 and 5; the probe's full outcome (per-call results, fired rules with match data, interruption, dumps, body reader contents, audit record) is compared with the same probe on a brand-new WAF. The pair runs on a locked OS thread with GC off so that the pool hands the predecessor's object to the probe. Non-trivial: object identity confirmed that the probe received the predecessor's recycled transaction; distinct by case hash.",
 		Assumptions: []string{"transaction id, timestamps, TIME*, DURATION, UNIQUE_ID and upload temp names are masked", "the audit record is observed through a writer registered with the public plugin API"},
 		Required:    []string{"reuse_confirmed", "double_close_checks", "stale_reader_checks"},
 		Plan: func(tier fw.Tier, seed int64) []fw.Batch {
